@@ -119,12 +119,22 @@ MergeSpecs(acc, new) ==
                        [acc EXCEPT ![j] = IF f.d.k = "nodef" /\ acc[j].d.k = "val" THEN [f EXCEPT !.d = acc[j].d] ELSE f],
                   Tail(new))
 
+(* plain merge of the specs of two base classes (second base first, as the reversed MRO has it): a name of    *)
+(* the first base replaces the spec in place, nothing is carried over from the replaced one                   *)
+RECURSIVE MergeBases(_, _)
+MergeBases(acc, new) ==
+  IF new = <<>> THEN acc
+  ELSE LET f == Head(new)  S == {j \in DOMAIN acc : acc[j].n = f.n} IN
+       MergeBases(IF S = {} THEN Append(acc, f) ELSE [acc EXCEPT ![CHOOSE j \in S : TRUE] = f], Tail(new))
+Mix(d) == IF "mix" \in DOMAIN d THEN d.mix ELSE 0      \* index of a second (non-generic) pane base, 0 = none
+
 (* specs collected along the MRO, before the keyword-only reordering *)
 RawSpecs(prog, i) ==
   LET d == prog[i]
-      inherited == IF d.base = 0 THEN <<>>
-                   ELSE LET bs == RawSpecs(prog, d.base) env == BaseEnv(prog, i) IN
-                        [j \in DOMAIN bs |-> [bs[j] EXCEPT !.t = Subst(bs[j].t, env)]]
+      frombase == IF d.base = 0 THEN <<>>
+                  ELSE LET bs == RawSpecs(prog, d.base) env == BaseEnv(prog, i) IN
+                       [j \in DOMAIN bs |-> [bs[j] EXCEPT !.t = Subst(bs[j].t, env)]]
+      inherited == IF Mix(d) = 0 THEN frombase ELSE MergeBases(RawSpecs(prog, Mix(d)), frombase)
   IN MergeSpecs(inherited, OwnSpecs(prog, i))
 
 Reorder(specs) == SelectSeq(specs, LAMBDA f : f.kw = "F") \o SelectSeq(specs, LAMBDA f : f.kw = "T")
@@ -147,7 +157,8 @@ DefError(prog, i) ==
   ELSE ""
 RECURSIVE ProgOK(_, _)
 ProgOK(prog, i) == IF DefError(prog, i) # "" THEN FALSE
-                   ELSE IF prog[i].base = 0 THEN TRUE ELSE ProgOK(prog, prog[i].base)
+                   ELSE (IF prog[i].base = 0 THEN TRUE ELSE ProgOK(prog, prog[i].base))
+                        /\ (IF Mix(prog[i]) = 0 THEN TRUE ELSE ProgOK(prog, Mix(prog[i])))
 
 (* the PaneSem descriptor *)
 EffCls(prog, i, args) ==
